@@ -62,7 +62,7 @@ func extraBase(t *rapid.T, p *gen.Pool) []string {
 		{"advscan", ns + ":" + tbl + ":", "hash", "count", "3"}, {"advscan", ns + ":" + tbl, "kv", "count", "3"}, {"advrevscan", ns + ":" + tbl + ":", "zset", "count", "3"},
 		{"fullscan", ns + ":" + tbl + ":", "kv", "count", "3"}, {"fullscan", ns + ":" + tbl + ":", "hash", "count", "3"},
 		{"hscan", k, "", "count", "2"}, {"sscan", k, "", "count", "2"}, {"zscan", k, "", "count", "2"}, {"hrevscan", k, "", "count", "2"}, {"hscan", k, m(), "match", "a*"},
-		{"plset", k, v(), ns + ":" + rapid.SampledFrom(p.Keys).Draw(t, "k2"), v()}, {"hidx.from", ns + ":" + tbl, "where", `"f=1"`},
+		{"plset", k, v(), ns + ":" + rapid.SampledFrom(p.Keys).Draw(t, "k2"), v()}, {"hidx.from", ns + ":" + tbl, "where", `"f=1"`}, {"hidx.from", ns + ":" + tbl, "where", `"f>1 and f<=3"`}, {"hidx.from", ns + ":" + tbl, "where", "f<2"},
 		{"ping"}, {"info"}, {"auth", "x"},
 	}
 	return rapid.SampledFrom(all).Draw(t, "extra")
@@ -91,7 +91,7 @@ func mutate(t *rapid.T, c []string) ([]string, []string) {
 	var muts []string
 	n := rapid.IntRange(1, 3).Draw(t, "nmut")
 	for i := 0; i < n; i++ {
-		op := rapid.IntRange(0, 12).Draw(t, "mut")
+		op := rapid.IntRange(0, 14).Draw(t, "mut")
 		pos := 0
 		if len(c) > 1 {
 			pos = rapid.IntRange(1, len(c)-1).Draw(t, "pos")
@@ -138,6 +138,23 @@ func mutate(t *rapid.T, c []string) ([]string, []string) {
 			v := rapid.SampledFrom([]string{strings.ToUpper(c[0]), c[0] + "x", "", "\x00", "stale." + c[0]}).Draw(t, "name")
 			muts = append(muts, fmt.Sprintf("name=%q", v))
 			c[0] = v
+		case op >= 13 && len(c) > 1 && len(c[pos]) > 0: // surgery inside one argument (what a mini-language inside an argument needs: "f=1" -> "=1")
+			a := c[pos]
+			q := rapid.IntRange(0, len(a)-1).Draw(t, "bytepos")
+			switch rapid.IntRange(0, 4).Draw(t, "surgery") {
+			case 0:
+				a = a[1:]
+			case 1:
+				a = a[:len(a)-1]
+			case 2:
+				a = a[:q] + a[q+1:]
+			case 3:
+				a = a[:q] + string(a[q]) + a[q:]
+			default:
+				a = a[:q] + rapid.SampledFrom([]string{"=", "<", ">", "\"", " and ", " ", ".", "[", "-", "\x00", "*"}).Draw(t, "ins") + a[q:]
+			}
+			muts = append(muts, fmt.Sprintf("[%d] %q -> %q", pos, c[pos], a))
+			c[pos] = a
 		default: // replace by hostile constant
 			if len(c) > 1 {
 				h := rapid.SampledFrom(hostile).Draw(t, "h")
@@ -493,6 +510,26 @@ func TestKnownGeoradiusRepeatedOption(t *testing.T) {
 			r := sim.Do("georadius", "default:t:k", "15", "37", "200", "km", opt, opt)
 			if r.Malformed != "" {
 				return true, "GEORADIUS k 15 37 200 km " + opt + " " + opt + " writes a malformed reply: " + r.Malformed
+			}
+		}
+		return false, ""
+	})
+}
+
+func TestKnownHidxWhereWithoutField(t *testing.T) {
+	known.Probe(t, "C11-hidx-where-without-field-crashes-process", func() (v bool, detail string) {
+		// the handler runs in a bare goroutine of the merge layer: a panic there ends the process,
+		// so the probe asks the parser's caller through the same entry and relies on the fix being present;
+		// on a tree without the fix this test process dies, which the driver reports as "process died"
+		sim, err := simkv.New(simkv.Options{Engine: "mem"})
+		if err != nil {
+			return false, "HARNESS: " + err.Error()
+		}
+		defer sim.Close()
+		for _, w := range []string{"=1", `"=1"`, `"<=1"`, `">=1 and =2"`} {
+			r := sim.Do("hidx.from", "default:t", "where", w).One()
+			if !r.IsErr() {
+				return true, "HIDX.FROM t WHERE " + w + " -> " + r.String() + ", expected an error reply"
 			}
 		}
 		return false, ""
